@@ -92,6 +92,66 @@ def register(cat, simple, binary, with_scalar, _perm, _dims_subset, gen_ttm, run
         return {"operands": [r] + [c.fresh(rand_array(c.g, (s,))) for s in sh], "form": "all", "dims": None}
 
     op("S.ttv", "S", gen_S_ttv, run_ttv, weight=1.0)
+
+    # ---- the mode list itself as a caller-owned array (a loose heap object), in arbitrary (often non-ascending) order
+    def _dims_any_order(c, n, lo=1, hi=None):
+        d = _dims_subset(c.g, n, lo, hi)
+        c.g.shuffle(d)
+        if len(d) > 1 and c.g.random() < 0.5:
+            d = sorted(d, reverse=True)
+        return d
+
+    def gen_ttv_dims_operand(c, r):
+        sh = c.obj(r).shape
+        n = len(sh)
+        if n < 2:
+            return None
+        dims = _dims_any_order(c, n, 2, n)
+        if c.g.random() < 0.5:
+            # one vector per listed mode, in the order of the list
+            vec_ids = [c.fresh(rand_array(c.g, (sh[d],))) for d in dims]
+        else:
+            vec_ids = [c.fresh(rand_array(c.g, (s,))) for s in sh]
+        return {"operands": [r] + vec_ids + [c.fresh(np.array(dims, dtype=np.int64))], "exclude": False}
+
+    def run_ttv_dims_operand(eng, ops, st):
+        return ops[0].ttv(list(ops[1:-1]), ops[-1])
+
+    def gen_ttv_exclude_operand(c, r):
+        sh = c.obj(r).shape
+        n = len(sh)
+        if n < 3:
+            return None
+        ex = _dims_any_order(c, n, 2, n - 1)
+        return {"operands": [r] + [c.fresh(rand_array(c.g, (s,))) for s in sh] + [c.fresh(np.array(ex, dtype=np.int64))]}
+
+    def gen_ttm_dims_operand(c, r):
+        sh = c.obj(r).shape
+        n = len(sh)
+        if n < 2:
+            return None
+        dims = _dims_any_order(c, n, 2, n)
+        tr = c.g.random() < 0.4
+        mats = []
+        for d in dims:
+            rows = c.g.randint(1, 3)
+            mats.append(c.fresh(np.asfortranarray(rand_array(c.g, (sh[d], rows) if tr else (rows, sh[d])))))
+        return {"operands": [r] + mats + [c.fresh(np.array(dims, dtype=np.int64))], "transpose": tr}
+
+    def gen_collapse_dims_operand(c, r):
+        n = c.obj(r).ndims
+        if n < 2:
+            return None
+        dims = _dims_any_order(c, n, 2, n)
+        return {"operands": [r, c.fresh(np.array(dims, dtype=np.int64))]}
+
+    for kind in ("T", "S", "K", "TT", "SUM"):
+        op(kind + ".ttv_dims_operand", kind, gen_ttv_dims_operand, run_ttv_dims_operand, weight=0.5)
+        op(kind + ".ttv_exclude_operand", kind, gen_ttv_exclude_operand, lambda eng, ops, st: ops[0].ttv(list(ops[1:-1]), exclude_dims=ops[-1]), weight=0.3)
+    for kind in ("T", "S", "TT"):
+        op(kind + ".ttm_dims_operand", kind, gen_ttm_dims_operand, lambda eng, ops, st: ops[0].ttm(list(ops[1:-1]), ops[-1], transpose=st["transpose"]), weight=0.4)
+    for kind in ("T", "S"):
+        op(kind + ".collapse_dims_operand", kind, gen_collapse_dims_operand, lambda eng, ops, st: ops[0].collapse(ops[1]), weight=0.3)
     op("S.ttm", "S", gen_ttm, lambda eng, ops, st: ops[0].ttm(ops[1], st["dim"], transpose=st["transpose"]), weight=0.8)
     op("S.mttkrp", "S", gen_mttkrp, run_mttkrp, weight=0.8)
     op("S.nvecs", "S", lambda c, r: (lambda sh, n: {"operands": [r], "n": n, "r": 1})(c.obj(r).shape, c.g.randrange(c.obj(r).ndims)), lambda eng, ops, st: ops[0].nvecs(st["n"], st["r"]), weight=0.2)
